@@ -45,6 +45,8 @@ type loopInfo struct {
 	sLocs   map[string][]string // kind -> head-evaluable written locations
 	sWins   []window
 	kindSet map[string]bool
+	rangePhi *ssa.Phi
+	rangeN   string
 	decrAt  []string // variant terms at head
 }
 
